@@ -91,7 +91,10 @@ def count_processor(u):
     ], iter_name="it", kind="for")
     f.insert_at(f.loop_open_brace(f.loops()[0][2]) + 1, " proof { lemma_sum_u32_mono(map_results@, it.index@ + 1); "
                 "assert(map_results@.take(it.index@ + 1).drop_last() == map_results@.take(it.index@)); }")
-    f.insert_at(f.find_one("info!(", nth=0)[0], "proof { assert(map_results@.take(map_results@.len() as int) == map_results@); }\n        ")
+    _lp = f.loops()[0]
+    from weave import lexer as _lx
+    _cb = _lx.match_close(f.body, f.loop_open_brace(_lp[2]))
+    f.insert_at(_cb + 1, "\n        proof { assert(map_results@.take(map_results@.len() as int) == map_results@); }")
     u.raw("}\n}\n")
 
 
@@ -264,8 +267,10 @@ pub fn counter_update_fn_%d(%s: u32) -> (r: Option<u32>)
     f.insert_at(f.loop_open_brace(f.loops()[0][2]) + 1, " proof { lemma_sum_inserted_mono(map_results@, it.index@ + 1); "
                 "assert(map_results@.take(it.index@ + 1).drop_last() == map_results@.take(it.index@)); }")
     f.before_stmt("Some(InsertReferencesResult {", "proof { assert(map_results@.take(map_results@.len() as int) == map_results@); }\n        ", nth=-1) if False else None
-    ls = f.find_all("Some(InsertReferencesResult {")
-    f.insert_at(ls[-1][0], "proof { assert(map_results@.take(map_results@.len() as int) == map_results@); }\n        ")
+    _lp = f.loops()[0]
+    from weave import lexer as _lx
+    _cb = _lx.match_close(f.body, f.loop_open_brace(_lp[2]))
+    f.insert_at(_cb + 1, "\n        proof { assert(map_results@.take(map_results@.len() as int) == map_results@); }")
     u.raw("}\n}\n")
 
 
